@@ -156,6 +156,8 @@ pub enum Corruption {
     HugeIndex(Slot, bool),
     /// a reference to an earlier selection without its closing slash (`/n0`)
     UnterminatedReference(Slot),
+    /// an option whose expression text is empty or blank (`--group-by=`, `--filter= `)
+    EmptyExpression(Slot, bool),
 }
 
 impl Cfg {
@@ -349,7 +351,7 @@ fn slots_of(cfg: &Cfg) -> Vec<Slot> {
 }
 
 pub fn arb_case() -> BoxedStrategy<Case18> {
-    (arb_cfg(), any::<u16>(), 0u8..18, any::<u16>(), prop::sample::select(vec!["junk", ")", "x y", "1", "(size .)", "]", "="]), prop::sample::select(vec!["UP", "DOWN", "ascending", "D", "1", "DESCC", "DESC junk", "asc )", "desc asc", "ASC 1", "desc,", "ASC ASC"]), any::<u64>(), prop::bool::weighted(0.2))
+    (arb_cfg(), any::<u16>(), 0u8..19, any::<u16>(), prop::sample::select(vec!["junk", ")", "x y", "1", "(size .)", "]", "="]), prop::sample::select(vec!["UP", "DOWN", "ascending", "D", "1", "DESCC", "DESC junk", "asc )", "desc asc", "ASC 1", "desc,", "ASC ASC"]), any::<u64>(), prop::bool::weighted(0.2))
         .prop_map(|(mut cfg, slot_pick, kind, cut, garbage, baddir, order, via_file)| {
             let slots = slots_of(&cfg);
             let slot = if slots.is_empty() {
@@ -376,6 +378,7 @@ pub fn arb_case() -> BoxedStrategy<Case18> {
                 14 => Corruption::TextOptionWithOther,
                 15 => Corruption::HugeIndex(slot, cut % 2 == 0),
                 16 => Corruption::UnterminatedReference(slot),
+                17 => Corruption::EmptyExpression(slot, cut % 2 == 0),
                 _ => Corruption::DanglingSeparator(slot, cut % 2 == 0),
             };
             Case18 { cfg, corruption, order, via_file }
@@ -523,6 +526,12 @@ pub fn corrupt(cfg: &Cfg, c: &Corruption) -> Option<Vec<String>> {
             let (pre, post) = [("", ""), (" ", ""), ("", " "), (" ", "  ")][(e.len() + n.len()) % 4];
             a.push(format!("--set={}{}{}{}={}", pre, if m { "@" } else { "" }, n, post, e));
             Some(a)
+        }
+        Corruption::EmptyExpression(s, blank) => {
+            if matches!(s, Slot::Set(_)) {
+                return None;
+            }
+            Some(cfg.args(Some((s, if *blank { "  ".to_string() } else { String::new() }))))
         }
         Corruption::UnterminatedReference(s) => {
             if matches!(s, Slot::Set(_)) {
@@ -678,10 +687,11 @@ impl Check for C18Reject {
             Corruption::TextOptionWithOther => "text_option_with_other_style",
             Corruption::HugeIndex(..) => "index_beyond_64_bits",
             Corruption::UnterminatedReference(_) => "reference_without_closing_slash",
+            Corruption::EmptyExpression(..) => "empty_expression",
         };
         let late_slot = matches!(
             &case.corruption,
-            Corruption::UnknownFunction(s) | Corruption::ArityLow(s) | Corruption::ArityHigh(s) | Corruption::MissingParen(s) | Corruption::Truncate(s, _) | Corruption::TrailingGarbage(s, _) | Corruption::DanglingSeparator(s, _) | Corruption::UnknownContext(s) | Corruption::HugeIndex(s, _) | Corruption::UnterminatedReference(s)
+            Corruption::UnknownFunction(s) | Corruption::ArityLow(s) | Corruption::ArityHigh(s) | Corruption::MissingParen(s) | Corruption::Truncate(s, _) | Corruption::TrailingGarbage(s, _) | Corruption::DanglingSeparator(s, _) | Corruption::UnknownContext(s) | Corruption::HugeIndex(s, _) | Corruption::UnterminatedReference(s) | Corruption::EmptyExpression(s, _)
                 if !matches!(s, Slot::Group)
         ) || matches!(&case.corruption, Corruption::BadDirection(..) | Corruption::SetWithoutEquals | Corruption::SetEmptyName(_) | Corruption::SetDuplicate);
         let headers_style = case.cfg.out == 1 || case.cfg.out_opts.iter().any(|o| o == "--headers") || matches!(&case.corruption, Corruption::CsvWithGroup | Corruption::CsvWithoutSelection);
